@@ -51,7 +51,7 @@ def parse_all(data: bytes) -> dict:
     res = {}
     for api in ("generic", "rdflib"):
         read = DR.g_read if api == "generic" else DR.r_read
-        for reader in ("flat", "grouped", "to_graph"):
+        for reader in ("flat", "grouped", "to_graph", "to_graph_factory"):
             try:
                 res[(api, reader)] = ("ok", DR.stmts_of(read(data, reader)))
             except Exception as e:  # noqa: BLE001
@@ -63,7 +63,7 @@ def agree(res: dict) -> list[tuple[str, str]]:
     fails = []
     gf = res[("generic", "flat")]
     rf = res[("rdflib", "flat")]
-    for reader in ("grouped", "to_graph"):
+    for reader in ("grouped", "to_graph", "to_graph_factory"):
         g = res[("generic", reader)]
         if g != gf:
             fails.append((f"generic-{reader}", f"generic flat gives {gf} but generic {reader} gives {g}"))
